@@ -157,6 +157,8 @@ where
         .collect::<Vec<_>>()
         .into_iter()
         .map(move |node_index| {
+            #[cfg(graphrs_verif)]
+            let _span = crate::verif_hooks::span("all_pairs_ser", node_index);
             let ss_index = match can_use_basic(target.clone(), cutoff, first_only, with_paths) {
                 true => dijkstra_basic(graph, weighted, node_index),
                 false => dijkstra(
@@ -198,6 +200,8 @@ where
         .collect::<Vec<_>>()
         .into_par_iter()
         .map(move |node_index| {
+            #[cfg(graphrs_verif)]
+            let _span = crate::verif_hooks::span("all_pairs_par", node_index);
             let ss_index = match can_use_basic(target.clone(), cutoff, first_only, with_paths) {
                 true => dijkstra_basic(graph, weighted, node_index),
                 false => dijkstra(
@@ -362,6 +366,8 @@ where
         true => sources
             .into_par_iter()
             .map(|source| {
+                #[cfg(graphrs_verif)]
+                let _span = crate::verif_hooks::span("multi_source_par", usize::MAX);
                 (
                     source.clone(),
                     single_source(
@@ -380,6 +386,8 @@ where
         false => sources
             .into_iter()
             .map(|source| {
+                #[cfg(graphrs_verif)]
+                let _span = crate::verif_hooks::span("multi_source_ser", usize::MAX);
                 (
                     source.clone(),
                     single_source(
